@@ -126,6 +126,17 @@ Theorem C11_fresh_run_closed_form : forall v dask w z h1 h2 src prog shots,
 Proof. exact fresh_run_closed_form. Qed.
 Print Assumptions C11_fresh_run_closed_form.
 
+(* the same when the seed arrives through the setter after construction
+   (configs[c].seed_sequence = z), whatever the config was built with or used for before *)
+Theorem C11_setter_run_closed_form : forall v dask w c z h1 h2 src prog shots,
+  wf w -> (c < length (w_cfgs w))%nat -> (v_global_py v = false \/ src <> PyDraw) ->
+  Forall (avoids c (length (w_sims (run v dask (step v dask w (SetSeed c z)) h1)))) h1 ->
+  Forall (avoids c (length (w_sims (run v dask (step v dask w (SetSeed c z)) h1)))) h2 ->
+  tail_run v dask (step v dask w (SetSeed c z)) c h1 h2 src prog shots
+  = Some (expected_result z src prog shots).
+Proof. exact setter_run_closed_form. Qed.
+Print Assumptions C11_setter_run_closed_form.
+
 (* every world reachable from process start is well formed, so the above applies after any
    prefix history *)
 Theorem C11_wf_reachable : forall v dask h, wf (run v dask init_world h).
